@@ -17,6 +17,11 @@ enum Op {
     SendReply(V, Option<bool>),
     SendError(V),
     Flush,
+    /// a chain of one call, sent at once (everything enqueued before goes out with it, in one write)
+    ChainSend(V, u8),
+    /// a chain that is started and given up without being sent: its call was accepted, so it is pending like an
+    /// enqueued one
+    ChainDropped(V, u8),
 }
 
 fn call_of(v: &V, flags: u8) -> Call<&V> {
@@ -123,6 +128,13 @@ fn history(rng: &mut Rng, run: &mut Run, len: usize, seed_tag: u64, big: bool) {
                 3 => Op::SendReply(rand_value(rng, poison), *rng.pick(&[None, Some(true), Some(false)])),
                 4 => Op::SendError(rand_value(rng, poison)),
                 5 | 6 => Op::Flush,
+                7 if rng.chance(1, 2) => {
+                    if rng.chance(2, 3) {
+                        Op::ChainSend(rand_method(rng, poison), rng.below(4) as u8)
+                    } else {
+                        Op::ChainDropped(rand_method(rng, poison), rng.below(4) as u8)
+                    }
+                }
                 7 => Op::EnqueueSized(FILLER_MIN + rng.below(40)),
                 8 => {
                     // land exactly on / around the buffer end
@@ -168,6 +180,19 @@ fn history(rng: &mut Rng, run: &mut Run, len: usize, seed_tag: u64, big: bool) {
             }
             Op::SendError(v) => (vnet::block_on(conn.send_error(v), 4).unwrap(), serde_json::to_vec(v).ok(), true),
             Op::Flush => (vnet::block_on(conn.flush(), 4).unwrap(), None, true),
+            Op::ChainSend(v, fl) => {
+                let c = call_of(v, *fl);
+                let r = match conn.chain_call::<_, Value, Value>(&c) {
+                    Err(e) => Err(e),
+                    Ok(chain) => vnet::block_on(chain.send(), 4).unwrap().map(|_stream| ()),
+                };
+                (r, serde_json::to_vec(&c).ok(), true)
+            }
+            Op::ChainDropped(v, fl) => {
+                let c = call_of(v, *fl);
+                let r = conn.chain_call::<_, Value, Value>(&c).map(|_chain| ());
+                (r, serde_json::to_vec(&c).ok(), false)
+            }
         };
         let opname = match &op {
             Op::EnqueueSized(l) => format!("enqueue_call(filler {l}B)"),
@@ -176,6 +201,8 @@ fn history(rng: &mut Rng, run: &mut Run, len: usize, seed_tag: u64, big: bool) {
             Op::SendReply(..) => "send_reply".into(),
             Op::SendError(..) => "send_error".into(),
             Op::Flush => "flush".into(),
+            Op::ChainSend(..) => "chain_call+send".into(),
+            Op::ChainDropped(..) => "chain_call, dropped unsent".into(),
         };
         hash = fnv_mix(hash, reference.as_ref().map(|r| r.len() as u64).unwrap_or(0) * 8 + opname.len() as u64);
         let is_flush_only = matches!(op, Op::Flush);
